@@ -92,4 +92,11 @@ CHECKS = {
                  "tree is marshalled by the real JSONMapCodec / JSONArrayCodec at top level, as a struct field between two others and as an unknown field, and "
                  "TLC judges value, bytes (members in any order), codec laws and the descriptor-driven JSON rendering.",
          "note": TB},
+ "C17": {"technique": "PlencSystem with per-item instance configurations (options, marker-codec registrations, package-level functions); histories interleaving instances replayed and validated by TraceSystem",
+         "text": "The model's Encode reads the configuration of the instance a call is made on and nothing else (design invariant ScopedDiffer shows the configurations "
+                 "really differ on the catalogue); histories interleave Marshal / Unmarshal of the same types through instances with different ProtoCompatible* "
+                 "options, a marker codec registered plainly / under a tag for a named type (as value, field, pointer target, slice element, map key, map value), a "
+                 "codec registered under a tag for time.Time (value and pointer field) and the package-level functions; TLC compares every call's bytes and "
+                 "decoded values with the configuration-specific model.",
+         "note": TB + " Registration happens before first use of the containing type (the documented usage)."},
 }
